@@ -1,10 +1,10 @@
 """Properties decided by two engines: the library-level connection state machine (server_family) and the
 reference server (ref_family). Both parts run; coverage is merged, any violation of either part counts."""
 from vf import *
-import server_family, ref_family, lifecycle_family, framing_family, crypt_family
+import server_family, ref_family, lifecycle_family, framing_family, crypt_family, reload_family, conc_family
 
 PARTS = {"C06": (server_family, ref_family), "C07": (server_family, ref_family, framing_family), "C20": (server_family, lifecycle_family), "C14": (ref_family, lifecycle_family),
-         "C19": (server_family, ref_family), "C03": (crypt_family, ref_family)}
+         "C19": (server_family, ref_family), "C03": (crypt_family, ref_family), "C16": (reload_family, conc_family)}
 
 
 def merge(a, b):
@@ -43,6 +43,10 @@ def replay(ctx, prop, obj):
         return lifecycle_family.replay(ctx, prop, obj)
     if k == "chaos" and obj.get("scenario", {}).get("stream"):
         return framing_family.replay(ctx, prop, obj)
+    if k == "reload":
+        return reload_family.replay(ctx, prop, obj)
+    if k in ("concgate", "race", "stress"):
+        return conc_family.replay(ctx, prop, obj)
     if k == "client-event":
         return crypt_family.replay(ctx, prop, obj)
     return server_family.replay(ctx, prop, obj)
